@@ -664,3 +664,83 @@ def q_der(env, name=None):
         finish(qr, ex)
     qr.samples.append({"obligation": "der", "flags": [hex(x) for x in flags], "der_lengths": "8..80 symbolic (crossing the 72-byte branch)"})
     return qr
+
+
+# ----------------------------------------------------------------------------- C07: WIF decoding layout
+def q_wif(env, name=None):
+    """PrivateKey::from_wif_impl on the Base58Check payload version || key32 [|| 0x01] || checksum: accepted iff the key is valid, key bytes and
+    compression flag exactly as encoded (Base58 and hex are inverse constructors, key validity an uninterpreted predicate)"""
+    import re as _re
+    from .executor import Exec
+    from .models import MODELS, ok, err
+    from .models_decode import DMODELS
+    qr = QResult(name or "wif_layout")
+    P = env.P
+    f = env.fn("private_key::PrivateKey::from_wif_impl")
+    valid = uf("SECRET_KEY_VALID", z3.BitVecSort(256), z3.BoolSort())
+
+    def m_secret(ex, a, callee, canon):
+        items = ex.seq_items(ex.bytes_of(a[0]))
+        if items is None or len(items) != 32:
+            return err("elliptic_curve::Error")
+        if ex.decide(valid(z3.Concat(*items))):
+            return ok(Opaque("SecretKey", Bytes(seq_of(items))))
+        return err("elliptic_curve::Error")
+    wm = [(_re.compile(r"^SecretKey::from_be_bytes$"), m_secret)]
+    dm = [m for m in DMODELS if m[1].__name__ not in ("m_secret_from_bytes", "m_pk_from_priv")]
+    sha = uf("SHA256D", SEQ, z3.BitVecSort(256))
+    for compressed in (False, True):
+        qr.cases += 1
+        ex = Exec(P, wm + dm + MODELS)
+
+        def setup(ex, compressed=compressed):
+            ctx = Ctx()
+            ctx.ver = z3.BitVec("wif_version", 8)
+            ctx.key = [z3.BitVec(f"wif_key_{i}", 8) for i in range(32)]
+            payload = [ctx.ver] + ctx.key + ([z3.BitVecVal(1, 8)] if compressed else [])
+            cs = be_bytes(sha(seq_of(payload)), 32)[:4]
+            text = Opaque("b58string", Bytes(seq_of(payload + cs)))
+            return f, [Ptr([text], 0)], ctx
+        try:
+            results = ex.explore(setup)
+        except Unsupported as e:
+            qr.undecided.append(f"from_wif_impl: {e}")
+            continue
+        for r in results:
+            qr.paths += 1
+            key_t = z3.Concat(*r.ctx.key)
+            se = SE.SeqEq(list(r.pc))
+            want_ok = se.abstract(valid(key_t))
+            bad = None
+            if r.kind == "panic":
+                bad, goal = f"panics: {r.msg}", z3.BoolVal(True)
+            elif r.ret.variant != "Ok":
+                bad, goal = "a valid WIF is rejected", want_ok
+            else:
+                pk = r.ret.f[0]
+                sk = pk.f[P.structs["PrivateKey"].index("secret_key")]
+                flag = pk.f[P.structs["PrivateKey"].index("is_pub_key_compressed")]
+                got_items = ex.seq_items(sk.payload.s) if isinstance(sk, Opaque) and isinstance(sk.payload, Bytes) else None
+                if got_items is None or len(got_items) != 32:
+                    bad, goal = "decoded key is not the 32 encoded key bytes", z3.BoolVal(True)
+                else:
+                    neq = z3.Or(*[g != w for g, w in zip(got_items, r.ctx.key)], flag.t != z3.BoolVal(compressed))
+                    bad, goal = "decoded key bytes or compression flag differ from the encoded ones", se.abstract(neq)
+            qr.queries += 1
+            if se._check(goal) != z3.sat:
+                continue
+            m = se.s.model()
+            keyb = bytes(bv_val(m, b) for b in r.ctx.key)
+            if keyb == bytes(32):
+                keyb = bytes(31) + b"\x05"
+            ver = 0x80
+            req = {"tx": {"version": 1, "locktime": 0, "inputs": [], "outputs": []}, "ops": [{"op": "wif_roundtrip", "key": keyb.hex(), "compressed": compressed}]}
+            nat = {p_: C.Native.run(req, p_)[0] for p_ in ("debug", "release")}
+            exp = {"key": keyb.hex(), "compressed": compressed}
+            item = {"message": f"WIF decoding ({'compressed' if compressed else 'uncompressed'}): {bad} (key ends in {keyb[-1]:#04x})", "request": req, "op_index": 0, "expected": exp, "native": nat}
+            if any(v.get("ok") != exp for v in nat.values()):
+                qr.violations.append(item)
+            else:
+                qr.undecided.append(f"wif: '{bad}' not reproduced natively with key {keyb.hex()}")
+        finish(qr, ex)
+    return qr
